@@ -39,6 +39,9 @@ def _fault_plan(rng, kinds, nmax=3):
                                kind=gen._choice(rng, ["entry", "mid"])))
         elif k == "update":
             faults.append(dict(seam="update", k=_k(rng, 40)))
+        elif k == "acq":
+            faults.append(dict(seam="acq", k=_k(rng, 80), kind=gen._choice(rng, ["nan_some", "nan_some", "nanvar_some", "negvar_some", "nan_all"]),
+                               stride=rng.randrange(2, 9), phase=rng.randrange(0, 8)))
         elif k == "predict":
             faults.append(dict(seam="predict", k=_k(rng, 60),
                                kind=gen._choice(rng, ["nan_mean", "inf_mean", "nan_var", "neg_var"])))
@@ -114,6 +117,11 @@ CFG = {
     "C14": dict(
         profile=dict(name="c14", rare_knobs=0.2, fam_w=[4, 1, 1, 0, 1, 1, 4], cons_p=0.2, where_w=[3, 2, 3, 2, 1]),
         n=dict(quick=96, thorough=3000),
+        # noisy runs long enough for the history re-evaluation to switch the incumbent back to an
+        # earlier iterate: the next poll must be centred on the switched incumbent
+        extra=[(dict(name="c14noisy", noise=["declared", "hetero", "auto"], noise_w=[2, 2, 1], sigma_log10=(-0.5, 1.0),
+                     fam=["quad", "abs"], fam_w=[3, 1], budget_kinds=["mid", "large"], budget_min=60, budget_max=140,
+                     cons_p=0.0, D=[1, 2, 2, 3], knobs=dict(max_iter=0.0, noise_final_samples=0.3)), 24, 400)],
         nontrivial=lambda r: r["outcome"] == "completed" and r["n_polls"] >= 2,
         rule="distinct scenarios completed with >=2 poll steps (every polled point matched against the generated basis)",
     ),
@@ -139,7 +147,7 @@ CFG = {
     "C18": dict(
         profile=dict(name="c18", rare_knobs=0.25, knobs=dict(n_search=0.75, search_method=0.45), cons_p=0.45, cons_w=[2, 2, 3, 2, 1, 3, 1],
                      fam_w=[5, 2, 1, 1, 1, 1, 3], budget_kinds=["small", "mid", "mid"]),
-        n=dict(quick=128, thorough=4000),
+        n=dict(quick=128, thorough=4000), faulted=0.3, fault_kinds=["acq"], fault_nmax=6,
         nontrivial=lambda r: r["outcome"] == "completed" and r["es_calls"] >= 2,
         rule="distinct scenarios completed with >=2 evolution-strategy calls, each judged against all acquisition values it computed",
     ),
@@ -175,7 +183,7 @@ def make_cases(prop, tier, seed, n=None):
                     else:
                         scn["faults"] = _fault_plan(rng, kinds, 2)
                 else:
-                    scn["faults"] = _fault_plan(rng, kinds)
+                    scn["faults"] = _fault_plan(rng, kinds, cfg.get("fault_nmax", 3))
                 scn["population"] = "faulted"
         scn.setdefault("population", "clean")
         cases.append(scn)
@@ -331,7 +339,7 @@ def main(prop, tier, n=None, extra_cov=None, cases=None, post=None):
         distinct_controller_states=dict(count=len(ctrl), measure="(mesh exponent, search_count, search_success>0, searched, polled, evaluated, noise level) at loop end"),
         determinism_reruns=dict(sampled=len(resample), identical=n_det_ok),
         components=dict(real=["pybads", "gpyreg", "scipy", "numpy"], stub=["target", "constraint function", "clock"],
-                        fault_shims=["GP.fit", "GP.update", "GP.predict"]),
+                        fault_shims=["GP.fit", "GP.update", "GP.predict (incumbent prediction)", "GP.predict (evolution-strategy population: partial/total NaN mean, NaN/negative variance)"]),
     )
     if extra_cov:
         cov.update(extra_cov)
